@@ -21,8 +21,9 @@ Tie (every run):
 Search oracle (implementation alone): the stored object equals the source; a
 multipart upload is completed exactly once, accepted, with PartNumbers 1..n
 ascending and the ETag (and checksum) the service returned for that very part;
-the bodies concatenate to the source and none is empty; multipart exactly when
-size >= threshold; no part but the last is shorter than the service's minimum
+the bodies concatenate to the source and none is empty; the first read of the user's
+stream happens at its call-time position (classification must not move it);
+multipart exactly when size >= threshold; no part but the last is shorter than the service's minimum
 part size (the adjuster's lower limit).
 """
 import hashlib
@@ -94,8 +95,11 @@ class RecBytesIO(io.BytesIO):
         super().__init__(data)
         self.ops = []
         self.sizes = list(sizes or [])
+        self.first_read_pos = None
 
     def read(self, n=-1):
+        if self.first_read_pos is None:
+            self.first_read_pos = super().tell()
         self.ops.append(('read', -1 if n is None or n < 0 else n))
         if n is not None and n >= 0 and self.sizes:
             n = min(n, max(1, self.sizes.pop(0)))
@@ -108,6 +112,59 @@ class RecBytesIO(io.BytesIO):
     def tell(self):
         self.ops.append(('tell',))
         return super().tell()
+
+
+class DuckBase:
+    """A duck-typed user stream: NO seekable()/readable() methods, so s3transfer classifies it
+    with its compat probes (hasattr read; seek(0, 1) for seekability).  Scripted short reads."""
+
+    def __init__(self, data, pos=0, sizes=None):
+        self._b = io.BytesIO(data)
+        self._b.seek(pos)
+        self.ops = []
+        self.sizes = list(sizes or [])
+        self.first_read_pos = None
+
+    def read(self, n=-1):
+        if self.first_read_pos is None:
+            self.first_read_pos = self._b.tell()
+        self.ops.append(('read', -1 if n is None or n < 0 else n))
+        if n is None or n < 0:
+            return self._b.read()
+        if self.sizes:
+            n = min(n, max(1, self.sizes.pop(0)))
+        return self._b.read(n)
+
+    def close(self):
+        pass
+
+
+class DuckSeekable(DuckBase):
+    """read / seek / tell only."""
+
+    def seek(self, w, wh=0):
+        self.ops.append(('seek', w, wh))
+        return self._b.seek(w, wh)
+
+    def tell(self):
+        self.ops.append(('tell',))
+        return self._b.tell()
+
+
+class DuckSeekRaises(DuckBase):
+    """Readable; has seek and tell but seeking is an I/O error (a pipe-like object)."""
+
+    def seek(self, w, wh=0):
+        self.ops.append(('seek', w, wh))
+        raise OSError('illegal seek')
+
+    def tell(self):
+        self.ops.append(('tell',))
+        return self._b.tell()
+
+
+class DuckBare(DuckBase):
+    """read() only."""
 
 
 def rec_reader(data, read_sizes):
@@ -186,8 +243,17 @@ def run_upload_case(case, tmpdir):
         src = path
     elif kind == 'seek':
         k = case.get('pos', 0)
-        src = RecBytesIO(payload(k, 99) + data, case.get('script'))
-        super(RecBytesIO, src).seek(k)
+        if case.get('duck'):
+            src = DuckSeekable(payload(k, 99) + data, k, case.get('script'))
+        else:
+            src = RecBytesIO(payload(k, 99) + data, case.get('script'))
+            super(RecBytesIO, src).seek(k)
+        src_ops = src.ops
+    elif case.get('duck'):
+        # a stream already consumed up to k at call time: the source is what is left
+        k = case.get('pos', 0)
+        cls = DuckSeekRaises if case['duck'] == 'raise' else DuckBare
+        src = cls(payload(k, 99) + data, k, case.get('script'))
         src_ops = src.ops
     else:
         src = rec_reader(data, case.get('script') or [])
@@ -202,7 +268,24 @@ def run_upload_case(case, tmpdir):
     except Exception as e:     # noqa
         obs['exc'] = type(e).__name__ + ': ' + str(e)[:160]
     obs['src_ops'] = src_ops
+    obs['call_pos'] = case.get('pos', 0) if (kind == 'seek' or case.get('duck')) else None
+    obs['first_read_pos'] = getattr(src, 'first_read_pos', None)
     return obs
+
+
+def check_upload(case, obs):
+    """The oracle for one upload: the service-side statement plus: classifying the source
+    (is_compatible / compat.seekable / compat.readable) and measuring it must leave the stream
+    where the caller put it -- the first byte read is the byte at the call-time position."""
+    v = check_service(obs['client'], obs['data'], case['thr'], case['limits'][0], alg=bool(case.get('alg')),
+                      exc=obs['exc'])
+    if v:
+        return v
+    if obs.get('call_pos') is not None and obs.get('first_read_pos') is not None and \
+            obs['first_read_pos'] != obs['call_pos']:
+        return (f'the first read of the source happened at offset {obs["first_read_pos"]}, the stream was at offset '
+                f'{obs["call_pos"]} when upload() was called')
+    return None
 
 
 def observe(client, dest=('b', 'k')):
@@ -317,8 +400,7 @@ def check_service(client, data, thr, min_part, dest=('b', 'k'), alg=False, expec
 
 def oracle_upload(case, tmpdir):
     obs = run_upload_case(case, tmpdir)
-    return check_service(obs['client'], obs['data'], case['thr'], case['limits'][0], alg=bool(case.get('alg')),
-                         exc=obs['exc']), obs
+    return check_upload(case, obs), obs
 
 
 # ===================================================================== cases
@@ -335,9 +417,12 @@ def upload_cases(ctx, with_retries):
             for size in sizes:
                 if size < 0:
                     continue
-                for kind in ('path', 'seek', 'seekpos', 'stream', 'stream-short', 'stream-rand', 'seek-short'):
+                for kind in ('path', 'seek', 'seekpos', 'stream', 'stream-short', 'stream-rand', 'seek-short',
+                             'duckseek', 'duckseekpos', 'duckseek-short', 'duck-raise', 'duck-bare'):
                     n += 1
-                    if with_retries and not ctx.thorough() and (n // 7 + n) % 4 != 0:
+                    if kind.startswith('duck') and not ctx.thorough() and (n // 12) % 2:
+                        continue
+                    if with_retries and not ctx.thorough() and (n // 12 + n) % 4 != 0:
                         continue
                     limits = [(1, 1000, 1000), (2, 9, 4), (1, 5, 3)][n % 3]
                     case = {'size': size, 'chunk': c, 'thr': t, 'limits': list(limits), 'alg': n % 4 == 0,
@@ -351,6 +436,19 @@ def upload_cases(ctx, with_retries):
                     elif kind == 'seek-short':
                         case.update(kind='seek', pos=rng.randrange(0, 4),
                                     script=[rng.randrange(1, 4) for _ in range(rng.randrange(1, size + 3))])
+                    elif kind == 'duckseek':
+                        case.update(kind='seek', pos=0, duck='seek')
+                    elif kind == 'duckseekpos':
+                        case.update(kind='seek', pos=rng.randrange(1, 7), duck='seek')
+                    elif kind == 'duckseek-short':
+                        case.update(kind='seek', pos=rng.randrange(0, 4), duck='seek',
+                                    script=[rng.randrange(1, 4) for _ in range(rng.randrange(1, size + 3))])
+                    elif kind == 'duck-raise':
+                        case.update(kind='stream', duck='raise', pos=rng.randrange(0, 4),
+                                    script=[rng.randrange(1, 5) for _ in range(rng.randrange(0, size + 3))])
+                    elif kind == 'duck-bare':
+                        case.update(kind='stream', duck='bare', pos=rng.randrange(0, 4),
+                                    script=[rng.randrange(1, 5) for _ in range(rng.randrange(0, size + 3))])
                     elif kind == 'stream':
                         case.update(kind='stream', script=[])
                     elif kind == 'stream-short':
@@ -387,7 +485,8 @@ def check_uploads(ctx, tmpdir, with_retries):
         return impl_line_upload(c, obs)
 
     def hist(c, o):
-        return {'kind': c['kind'] + ('+pos' if c.get('pos') else '') + ('+short' if short_seekable(c) else ''), 'mode': o.split()[0],
+        return {'kind': c['kind'] + ('+duck-' + c['duck'] if c.get('duck') else '') + ('+pos' if c.get('pos') else '') +
+                ('+short' if short_seekable(c) else ''), 'mode': o.split()[0],
                 'short_reads': bool(c.get('script')), 'resends': c.get('resends', 'none')}
 
     mism = common.differential(ctx, 'uploadsrc', cases, model_line_upload, run_impl, hist=hist)
@@ -396,13 +495,13 @@ def check_uploads(ctx, tmpdir, with_retries):
     # oracle on every case (cheap: the run is already there)
     for c in cases:
         obs = observations[id(c)]
-        v = check_service(obs['client'], obs['data'], c['thr'], c['limits'][0], alg=bool(c.get('alg')), exc=obs['exc'])
+        v = check_upload(c, obs)
         if v:
             ctx.report(sig('c01:upload', oracle_key(c)), describe(c) + ': ' + v,
                        {'kind': 'input', 'component': comp, 'family': 'upload', 'case': c})
     for c, i, m in mism[:40]:
         obs = observations[id(c)]
-        v = check_service(obs['client'], obs['data'], c['thr'], c['limits'][0], alg=bool(c.get('alg')), exc=obs['exc'])
+        v = check_upload(c, obs)
         if v:
             continue        # already reported with the input
         if obs['exc'] is not None:
@@ -431,7 +530,7 @@ def oracle_key(c):
 
 
 def describe(c):
-    k = c['kind'] + (f' at offset {c["pos"]}' if c.get('pos') else '')
+    k = c['kind'] + (f' (duck-typed: {c["duck"]})' if c.get('duck') else '') + (f' at offset {c["pos"]}' if c.get('pos') else '')
     s = f' short reads {c["script"][:8]}' if c.get('script') else ''
     r = f', {c["resends"]} resends' if c.get('resends') is not None else ''
     return (f'upload of {c["size"]} bytes from a {k} source{s} (chunk {c["chunk"]}, threshold {c["thr"]}, '
@@ -892,6 +991,7 @@ def run(ctx):
     common.proofs(ctx, 'C01', EXTRACT, COMPONENTS)
     ctx.assumptions = [
         'a stream read(n) (seekable or not) returns 1..n bytes before EOF and nothing only at EOF; read() returns the rest (every script of such reads is covered); seekable streams report their position and size truthfully (tell / seek(0, 2)) and are positioned inside their data',
+        'classifying the source (is_compatible, compat.seekable / compat.readable probes) and measuring it (tell, seek(0, 2), seek(start)) leave the stream at its call-time position: model/UploadSrc.v starts from that position; tied on every upload case by checking that the first read of the source happens at the call-time offset, including duck-typed streams that are classified by the seek(0, 1) probe',
         'success of the future implies every part task ran its request once to a successful end and complete ran once after all of them with their results (Sys.v, properties C03-C08); the run functions take this as the shape of a successful run',
         'the client performs every request as Sign.Send.(rewind.Sign.Send)* ending in a complete send of positive-size reads (botocore life cycle, validated against the real endpoint by C09 thorough); everything before the last attempt is arbitrary',
         'the reference S3 (model/S3Spec.v = harness/fakes3.py): complete concatenates in listed order and rejects non-ascending lists, unknown parts/ETags, parts below the minimum size; part sizes above 5 GiB / more than 10000 parts are C14',
@@ -899,7 +999,7 @@ def run(ctx):
     ]
     ctx.cov['rule'] = (
         'upload cases: c,t in 1..9 x size in {0,1,c-1,c,c+1,2c-1,2c+1,t-1,t,t+1,3c} x source kind (path, BytesIO at 0 and at k, '
-        'BytesIO with scripted short reads, non-seekable reader with no / all-1 / random short reads) x scaled adjuster limits x checksum on/off, each run through the real '
+        'BytesIO with scripted short reads, non-seekable reader with no / all-1 / random short reads, duck-typed streams without seekable()/readable(): read+seek+tell at 0 and at k also with short reads, read+raising seek, read only) x scaled adjuster limits x checksum on/off, each run through the real '
         'TransferManager (NonThreadedExecutor) + FakeS3 and through the extracted model; the same with scripted sign reads and 0..3 '
         'resends cut at random points; copies and legacy upload_file on the same grid; scheduled multi-threaded runs (random/PCT) '
         'replayed on the model in the order the service applied the parts. distinct = distinct model command line (inputs) / '
